@@ -42,8 +42,32 @@ func Mine(idx, i, n, from, only int) bool {
 	return idx%n == i && idx >= from
 }
 
+// AtRecycle, when set by a worker, is called before the worker hands over to a fresh process
+// (it prints the worker's partial summary).
+var AtRecycle func()
+
+var curCount int
+
+// recycleEvery: a worker that drives whole nodes leaks what the nodes leave behind (goroutines of
+// nodes that are never shut down, their stores); after this many cases it asks for a fresh process.
+func recycleEvery() int {
+	if v, err := strconv.Atoi(os.Getenv("VERIF_RECYCLE")); err == nil && v > 0 {
+		return v
+	}
+	return 2500
+}
+
 // Cur announces the case a worker is about to run.
 func Cur(idx int) {
+	curCount++
+	if curCount > recycleEvery() && AtRecycle != nil {
+		AtRecycle()
+		mu.Lock()
+		fmt.Fprintf(out, "RECYCLE %d\n", idx)
+		out.Flush()
+		mu.Unlock()
+		os.Exit(0)
+	}
 	mu.Lock()
 	fmt.Fprintf(out, "CUR %d\n", idx)
 	out.Flush()
@@ -56,6 +80,12 @@ type death struct {
 }
 
 func runChild(i, n, from, only int, args []string) (lastCur int, died bool, tail string) {
+	lastCur, _, died, tail = runChild2(i, n, from, only, args)
+	return
+}
+
+func runChild2(i, n, from, only int, args []string) (lastCur int, recycle int, died bool, tail string) {
+	recycle = -1
 	a := append([]string{"__worker", strconv.Itoa(i), strconv.Itoa(n), strconv.Itoa(from), strconv.Itoa(only)}, args...)
 	cmd := exec.Command(os.Args[0], a...)
 	cmd.Env = os.Environ()
@@ -74,6 +104,8 @@ func runChild(i, n, from, only int, args []string) (lastCur int, died bool, tail
 			line, err := r.ReadString('\n')
 			if strings.HasPrefix(line, "CUR ") {
 				lastCur, _ = strconv.Atoi(strings.TrimSpace(line[4:]))
+			} else if strings.HasPrefix(line, "RECYCLE ") {
+				recycle, _ = strconv.Atoi(strings.TrimSpace(line[8:]))
 			} else if strings.HasPrefix(line, "VH ") {
 				mu.Lock()
 				out.WriteString(line)
@@ -102,7 +134,7 @@ func runChild(i, n, from, only int, args []string) (lastCur int, died bool, tail
 	if len(errTail) > 25 {
 		errTail = errTail[:25]
 	}
-	return lastCur, err != nil, strings.Join(errTail, "\n")
+	return lastCur, recycle, err != nil, strings.Join(errTail, "\n")
 }
 
 // RunPool runs n workers over the cases and returns the number of unreproducible deaths.
@@ -115,11 +147,16 @@ func RunPool(n int, args []string, onDeath func(idx int, tail string)) (flaky in
 		go func(i int) {
 			defer wg.Done()
 			from := 0
-			for deaths := 0; deaths < 30; deaths++ {
-				cur, died, _ := runChild(i, n, from, -1, args)
+			for deaths := 0; deaths < 30; {
+				cur, recycle, died, _ := runChild2(i, n, from, -1, args)
+				if !died && recycle >= 0 {
+					from = recycle // the worker asked for a fresh process before this case
+					continue
+				}
 				if !died {
 					return
 				}
+				deaths++
 				if cur < 0 {
 					Fatal("worker %d died before its first case", i)
 				}
